@@ -146,7 +146,9 @@ func (m *Model) do(c *RawClient, method uint16, build func(b *wire.Builder)) (*w
 		if c.IsTCP && resp != nil {
 			m.checkResponse(resp, c, c.Addr.String())
 		}
-		m.Audit(nil)
+		if m.cur == nil { // inside an open data step the step's own audit judges everything
+			m.Audit(nil)
+		}
 		if resp == nil {
 			return nil, tid
 		}
@@ -599,8 +601,32 @@ type Step struct {
 // Begin starts a step. Anything emitted before is audited as spontaneous.
 func (m *Model) Begin() *Step {
 	m.Audit(nil)
+	s := &Step{M: m}
+	m.cur = s
 
-	return &Step{M: m}
+	return s
+}
+
+// InStepControl runs a control request of client c (one of the Model's request wrappers) while the
+// data submitted so far in this step is still in flight. Datagrams already sent toward c's relayed
+// address race with the request inside the server (relay read loops run concurrently with the
+// listener), so their verdicts become MAY; allowChan names the channel number a ChannelBind in
+// flight may newly attach to a peer. Submissions made after the call get verdicts from the updated
+// model, because the request has completed by then.
+func (s *Step) InStepControl(c *RawClient, allowChan map[string]uint16, f func()) {
+	for _, e := range s.exp {
+		if e.Dir == "p2c" && e.Client == c {
+			if e.V != May {
+				s.M.Rec.Ev("verdict/relaxed-by-in-step-control")
+			}
+			e.V, e.Reason = May, "in-step-control"
+			e.AllowInd = true
+			if n, ok := allowChan[e.Peer]; ok && e.AllowChan == 0 {
+				e.AllowChan = n
+			}
+		}
+	}
+	f()
 }
 
 // msgOversize reports whether a client message of n bytes is dropped by the inbound buffer.
@@ -803,6 +829,7 @@ func (s *Step) PeerSend(p *Peer, relay *net.UDPAddr, payload []byte) *Expect {
 // End waits for quiescence and judges the step.
 func (s *Step) End() {
 	s.M.W.Settle()
+	s.M.cur = nil
 	s.M.Audit(s.exp)
 }
 
